@@ -805,6 +805,53 @@ func checkParallelSlices(ctx *Ctx, r *Report) {
 					twin = true
 				}
 			}
+			if !twin && o.kind == "append" {
+				// appended triangles may get their (false) flags in bulk later, as long as that
+				// happens before any flag is read: `flags = append(flags, make([]bool, len(tris)-len(flags))...)`
+				resync := map[*ssa.BasicBlock]bool{}
+				allInstrs(fn, func(rb *ssa.BasicBlock, ins ssa.Instruction) {
+					c, ok := ins.(*ssa.Call)
+					if !ok {
+						return
+					}
+					bi, ok := c.Call.Value.(*ssa.Builtin)
+					if !ok || bi.Name() != "append" || len(c.Call.Args) != 2 || kindOf(c.Call.Args[0].Type()) != "flags" {
+						return
+					}
+					mk, ok := c.Call.Args[1].(*ssa.MakeSlice)
+					if !ok {
+						return
+					}
+					d, ok := mk.Len.(*ssa.BinOp)
+					if !ok || d.Op != token.SUB {
+						return
+					}
+					lt, okT := lenCallOf(d.X)
+					lf, okF := lenCallOf(d.Y)
+					if okT && okF && kindOf(lt.Type()) == "tris" && kindOf(lf.Type()) == "flags" {
+						resync[rb] = true
+					}
+				})
+				if len(resync) > 0 {
+					// flag reads reachable from here without passing a resynchronisation
+					seen := map[*ssa.BasicBlock]bool{}
+					work := append([]*ssa.BasicBlock{}, b.Succs...)
+					hit := false
+					for len(work) > 0 {
+						x := work[len(work)-1]
+						work = work[:len(work)-1]
+						if seen[x] || resync[x] {
+							continue
+						}
+						seen[x] = true
+						if flagReads[x] {
+							hit = true
+						}
+						work = append(work, x.Succs...)
+					}
+					twin = !hit && !resync[b] || (resync[b] && !hit)
+				}
+			}
 			r.check("Y7", fmt.Sprintf("Delaunay2d|%s#%d|flags-follow-their-triangles", o.kind, n), o.ins.Pos(), twin, "the triangle list is changed here ("+o.kind+") while completion flags are still consulted: the flag slice needs the same operation with the same operands in the same block")
 		}
 	}
